@@ -21,11 +21,31 @@ def ensure_decode():
 
 
 _dcache = {}
+_VEX2_67 = re.compile(r"^((?:66|f2|f3|2e|3e|26|36|64|65)*67(?:66|f2|f3)*)c5([0-9a-f]{2})")
+
+
+def llvm_workaround(h):
+    """LLVM 14's decoder mis-handles an address-size prefix in front of a 2-byte VEX prefix
+    (prints the legacy SSE mnemonic or fails). For LLVM only, such an encoding is rewritten to
+    the architecturally identical 3-byte VEX form (C5 [R vvvv L pp] == C4 [R 1 1 00001] [0 vvvv L pp]);
+    the consumed length is corrected by one. libopcodes sees the original bytes."""
+    m = _VEX2_67.match(h)
+    if not m:
+        return None
+    b = int(m.group(2), 16)
+    return m.group(1) + "c4%02x%02x" % ((b & 0x80) | 0x61, b & 0x7f) + h[m.end():]
 
 
 def decode_many(hexes):
     """hexes: iterable of hex strings. Returns dict hex -> (llvm_len, llvm_text, bfd_len, bfd_text). Cached."""
     todo = sorted(set(h for h in hexes if h and h not in _dcache))
+    alt = {}
+    for h in todo:
+        a = llvm_workaround(h)
+        if a:
+            alt[h] = a
+    if alt:
+        decode_many(alt.values())
     if todo:
         binp = ensure_decode()
         nproc = min(common.NPROC, max(1, len(todo) // 2000))
@@ -41,7 +61,11 @@ def decode_many(hexes):
             out = []
             for h, row in zip(p, rows):
                 c = row.split("\t")
-                out.append((h, (int(c[0]), c[1].strip(), int(c[2]), c[3].strip())))
+                l1, t1 = int(c[0]), c[1].strip()
+                if h in alt:
+                    a = _dcache[alt[h]]
+                    l1, t1 = (a[0] - 1 if a[0] > 0 else a[0]), a[1]
+                out.append((h, (l1, t1, int(c[2]), c[3].strip())))
             return out
 
         with ThreadPoolExecutor(max_workers=nproc) as ex:
